@@ -447,15 +447,21 @@ func (c *Connection) callOnExchangeChange() {
 
 // ping sends a ping message and waits for a ping response.
 func (c *Connection) ping(ctx context.Context) error {
+	return c.pingWithErrHandler(ctx, c.connectionError)
+}
+
+// pingWithErrHandler is ping with an explicit handler for connection-level
+// errors, since the health check goroutine cannot call connectionError directly.
+func (c *Connection) pingWithErrHandler(ctx context.Context, connectionError func(site string, err error) error) error {
 	req := &pingReq{id: c.NextMessageID()}
 	mex, err := c.outbound.newExchange(ctx, c.outboundCtxCancel, c.opts.FramePool, req.messageType(), req.ID(), 1)
 	if err != nil {
-		return c.connectionError("create ping exchange", err)
+		return connectionError("create ping exchange", err)
 	}
 	defer c.outbound.removeExchange(req.ID())
 
 	if err := c.sendMessage(req); err != nil {
-		return c.connectionError("send ping", err)
+		return connectionError("send ping", err)
 	}
 
 	return c.recvMessage(ctx, &pingRes{}, mex)
